@@ -20,6 +20,11 @@ Theorem C08_generated_default_exchange_guards :
 Proof. repeat split; reflexivity. Qed.
 Print Assumptions C08_generated_default_exchange_guards.
 
+(* NewBinding reads an x-match that arrives as []byte (long string of the 0-9-1 dialect) like a string (F52 = F68, repaired) *)
+Theorem C08_generated_xmatch_long_string : c_xmatch_bytes gen_cfg = true.
+Proof. reflexivity. Qed.
+Print Assumptions C08_generated_xmatch_long_string.
+
 Theorem C08_generated_alias_maps : alias_maps_ok gen_cfg gen_type_id_alias gen_type_alias_id = true.
 Proof. reflexivity. Qed.
 Print Assumptions C08_generated_alias_maps.
@@ -42,6 +47,14 @@ Theorem C08_route_eq_spec_refuted : forall c, cfg_sane c = true ->
     route_spec true KHeaders (ex_bindings ex) m q /\ matched_queues c ex m = Some [].
 Proof. exact no_headers_table_refuted. Qed.
 Print Assumptions C08_route_eq_spec_refuted.
+
+(* Every binding a client may make is accepted by NewBinding (so that it can route at all): wildcards as
+   whole words only; x-match absent or the string all / any, sent as short or long string. *)
+Theorem C08_wellformed_binding_accepted : forall c q ex key args topic, cfg_sane c = true -> c_xmatch_bytes c = true ->
+  (topic = true -> pattern_ok key = true) -> xmatch_allowed args ->
+  exists b, new_binding c q ex key args topic = Some b.
+Proof. exact wellformed_binding_accepted. Qed.
+Print Assumptions C08_wellformed_binding_accepted.
 
 (* Topic matching: the row algorithm of matchTopicWords decides the word-wise relation
    (`*` exactly one word, `#` zero or more), for words over ANY alphabet. *)
@@ -179,6 +192,12 @@ Proof.
   - repeat constructor.
   - repeat constructor; intros E; discriminate.
 Qed.
+
+(* an x-match sent as long string under the 0-9-1 dialect selects the mode as well *)
+Example C08_xmatch_long_string_example :
+  option_map b_match (new_binding gen_cfg s_q1 s_e [] (Some [(s_a, VInt I32 1); ([120; 45; 109; 97; 116; 99; 104], VBytes [97; 110; 121])]) false)
+  = Some MatchAny.
+Proof. vm_compute. reflexivity. Qed.
 
 Example C08_headers_example : matched_queues gen_cfg ex_headers msg_h = Some [s_q1; s_q2].
 Proof. vm_compute. reflexivity. Qed.
